@@ -10,33 +10,41 @@ use std::collections::HashSet;
 
 pub const SOURCES: &[&str] = &["slice", "str", "reader"];
 
-/// All items of the stream by the datum API and by the value API (until the first error / end).
+/// All items of the stream by the datum API and by the value API: the caller goes on after an error (a parser
+/// makes progress on every call), until the end of the input or an EOF error.
 pub fn parse_streams(src: &str, text: &[u8], ro: &J) -> (Vec<Result<Datum, J>>, Vec<J>, bool) {
     let o = parse_opts(ro);
+    let cap = text.len() + 3;
     let r = std::panic::catch_unwind(|| {
         let mut ds: Vec<Result<Datum, J>> = Vec::new();
         let mut vs: Vec<J> = Vec::new();
         macro_rules! drive {
             ($mk:expr) => {{
                 let mut p = $mk;
-                loop {
+                for _ in 0..cap {
                     match p.next_datum() {
                         Ok(Some(d)) => ds.push(Ok(d)),
                         Ok(None) => break,
                         Err(e) => {
+                            let stop = e.is_eof() || e.is_io();
                             ds.push(Err(err_json(&e)));
-                            break;
+                            if stop {
+                                break;
+                            }
                         }
                     }
                 }
                 let mut p = $mk;
-                loop {
+                for _ in 0..cap {
                     match p.next_value() {
                         Ok(Some(v)) => vs.push(json!({"r":"ok","v":val_to_json(&v)})),
                         Ok(None) => break,
                         Err(e) => {
+                            let stop = e.is_eof() || e.is_io();
                             vs.push(err_json(&e));
-                            break;
+                            if stop {
+                                break;
+                            }
                         }
                     }
                 }
@@ -52,6 +60,31 @@ pub fn parse_streams(src: &str, text: &[u8], ro: &J) -> (Vec<Result<Datum, J>>, 
     match r {
         Ok((d, v)) => (d, v, false),
         Err(_) => (vec![], vec![], true),
+    }
+}
+
+/// Delivers `data`, except that the first read at each offset in `faults` fails with WouldBlock.
+struct Flaky<'a> {
+    data: &'a [u8],
+    pos: usize,
+    faults: Vec<usize>,
+    fired: usize,
+}
+
+impl<'a> std::io::Read for Flaky<'a> {
+    fn read(&mut self, buf: &mut [u8]) -> std::io::Result<usize> {
+        if self.fired < self.faults.len() && self.faults[self.fired] == self.pos {
+            self.fired += 1;
+            return Err(std::io::Error::new(std::io::ErrorKind::WouldBlock, "try again"));
+        }
+        if self.pos >= self.data.len() || buf.is_empty() {
+            return Ok(0);
+        }
+        let next_fault = if self.fired < self.faults.len() { self.faults[self.fired] } else { self.data.len() };
+        let n = buf.len().min(next_fault.max(self.pos + 1) - self.pos).min(self.data.len() - self.pos);
+        buf[..n].copy_from_slice(&self.data[self.pos..self.pos + n]);
+        self.pos += n;
+        Ok(n)
     }
 }
 
@@ -319,8 +352,10 @@ impl Runner {
                     dproj.len(), vs.len(), dproj.iter().zip(vs.iter()).position(|(a, b)| a != b).unwrap_or(dproj.len().min(vs.len())))));
             }
             let mut trees = Vec::new();
+            let mut tops: Vec<(usize, usize)> = Vec::new();
             let mut prev_end: Option<usize> = None;
-            for d in ds.iter().flatten() {
+            // (the structural and span checks are for the data read before the first error)
+            for d in ds.iter().take_while(|d| d.is_ok()).flatten() {
                 // C10 (2): conversion and structural walk
                 let conv: Value = Value::from(d.clone());
                 if conv != *d.value() {
@@ -349,11 +384,42 @@ impl Runner {
                         }
                     }
                     prev_end = Some(e);
+                    tops.push((s, e));
                 }
                 for c in complaints {
                     self.bad.push(mk("c11-span", c));
                 }
                 trees.push(tree);
+            }
+            // C11: a reader that fails transiently between two data (a caller retries the call): the spans are those of
+            // the undisturbed stream
+            if *src == "reader" && tops.len() >= 2 && ds.iter().all(|d| d.is_ok()) && tops.len() == ds.len() {
+                let faults: Vec<usize> = tops[1..].iter().map(|t| t.0).filter(|&k| k >= 1 && matches!(text[k - 1], b' ' | b'\n')).collect();
+                if !faults.is_empty() {
+                    let o = parse_opts(ro);
+                    let got = std::panic::catch_unwind(|| {
+                        let mut p = Parser::from_reader_custom(Flaky { data: text, pos: 0, faults: faults.clone(), fired: 0 }, o);
+                        let mut out = Vec::new();
+                        let mut retries = 0usize;
+                        for _ in 0..text.len() + faults.len() + 3 {
+                            match p.next_datum() {
+                                Ok(Some(d)) => out.push(span_tree(d.as_ref())),
+                                Ok(None) => break,
+                                Err(e) if e.is_io() => retries += 1,
+                                Err(_) => break,
+                            }
+                        }
+                        (out, retries)
+                    });
+                    match got {
+                        Ok((out, retries)) => {
+                            if J::Array(out) != J::Array(trees.clone()) {
+                                self.bad.push(mk("c11-retry", format!("after {} transient read errors between data (at the offsets {:?}) the spans differ from those of the undisturbed stream", retries, faults)));
+                            }
+                        }
+                        Err(_) => self.bad.push(mk("panic", "parser panicked on a reader that fails transiently".into())),
+                    }
+                }
             }
             trees_by_src.push((src.to_string(), J::Array(trees)));
         }
@@ -382,7 +448,9 @@ impl Runner {
 }
 
 const JUNK: &[&[u8]] = &[b"(", b")", b"[", b"]", b"#(", b"'", b"`", b",", b",@", b".", b" ", b"\n", b"\r\n", b"\t", b";c\n", b"a", b"foo", b"12", b"-2.5",
-    b"\"s\"", b"\"a\\nb\"", b"#\\x", b"#t", b"#nil", b"#u8(1 2)", b"\xCE\xBB", b"\xCE\xBBy", b":k", b"#:k", b"?a", b"nil", b"#", b"{", b"\"", b". ", b" . "];
+    b"\"s\"", b"\"a\\nb\"", b"#\\x", b"#t", b"#nil", b"#u8(1 2)", b"\xCE\xBB", b"\xCE\xBBy", b":k", b"#:k", b"?a", b"nil", b"#", b"{", b"\"", b". ", b" . ",
+    // a NUL byte is an ordinary byte of the input, not its end
+    b"\x00", b" .\x00 ", b"1\x00", b"a\x00b"];
 
 /// cfg: {"cases_files": [ndjson of {text, ro}], "seed", "random", "trace_bytes", "stride"}
 pub fn run(cfg: &J) -> J {
